@@ -35,6 +35,7 @@ def run(ctx):
     r6_type_dispatch(ctx)
     r7_corral_poles(ctx)
     r8_sampler(ctx)
+    r9_smoothing_sums_to_one(ctx)
 
 
 def _single_return(fn):
@@ -216,6 +217,63 @@ def r5_corral_brackets(ctx):
         vals = assigned_value(f, nm) if f is not None else []
         ok = bool(vals) and all("sorted(" in unparse(v) for v in vals)
         ctx.ob("C16.R5", "coba/learners/corral.py", "CorralLearner._log_barrier_omd", lp, "the bracket list walked pairwise is sorted", ok, detail={"brackets": [unparse(v)[:120] for v in vals]})
+        # f has a pole at every interior bracket end; the sign test therefore probes slightly inside the bracket.  A fixed absolute offset misses a
+        # root that lies closer than the offset to a pole (f's slope grows with eta): every bracket is skipped and learn() raises
+        probes = [c for c in ast.walk(lp) if isinstance(c, ast.Call) and len(c.args) == 1 and isinstance(c.args[0], ast.BinOp) and isinstance(c.args[0].right, ast.Constant)
+                  and isinstance(c.args[0].right.value, float) and isinstance(c.args[0].left, ast.Name) and c.args[0].left.id in {t.id for t in ast.walk(lp.target) if isinstance(t, ast.Name)}]
+        ctx.ob("C16.R5", "coba/learners/corral.py", "CorralLearner._log_barrier_omd", probes[0] if probes else lp,
+               "the sign test inside a bracket does not rely on a fixed absolute offset from the poles (a root nearer than the offset to a pole would be missed and learn() would raise)",
+               not probes, detail={"probes": [unparse(c) for c in probes]}, stmt="bracket probe offset")
+
+
+def r9_smoothing_sums_to_one(ctx):
+    """Corral mixes the updated weights with the uniform distribution: p_bar_i = E(p_i).  With sum(p) == 1 over M base learners the smoothed weights
+    sum to E(1) - E(0) + M*E(0) when E is affine in p; that must be 1 identically in gamma and M (exact rational identity test)."""
+    import copy
+    from ..algebra import identically_zero
+    REL = "coba/learners/corral.py"
+    ctx.rule("C16.R9", "Corral's smoothed weights p_bar = E(p) still sum to one: E is affine in p and E(1) - E(0) + M*E(0) == 1 identically in gamma and M "
+                       "(M = number of base learners; exact rational identity test), for every statement that fills self._p_bars")
+    c = ctx.model.cls(REL, "CorralLearner")
+    n = 0
+    for name, fn in sorted(c.methods.items()):
+        for st in [x for x in ast.walk(fn) if isinstance(x, ast.Assign) and any(is_self_attr(t, "_p_bars") for t in x.targets) and isinstance(x.value, ast.ListComp)]:
+            comp = st.value
+            if unparse(comp.generators[0].iter) not in ("self._ps", "ps") or not isinstance(comp.generators[0].target, ast.Name):
+                continue
+            n += 1
+            P = comp.generators[0].target.id
+
+            class T(ast.NodeTransformer):
+                def visit_Attribute(self, node):
+                    if is_self_attr(node):
+                        return ast.copy_location(ast.Name(id="S_" + node.attr.strip("_"), ctx=ast.Load()), node)
+                    return self.generic_visit(node)
+
+                def visit_Call(self, node):
+                    if call_name(node) == "len" and len(node.args) == 1 and unparse(node.args[0]) in ("self._base_lrns", "self._ps", "base_learners"):
+                        return ast.copy_location(ast.Name(id="M", ctx=ast.Load()), node)
+                    return self.generic_visit(node)
+            E = T().visit(copy.deepcopy(comp.elt))
+            ast.fix_missing_locations(E)
+            one, zero, two = ast.Constant(1), ast.Constant(0), ast.Constant(2)
+            # affine: E(2) - 2E(1) + E(0) == 0 ; sums to one: E(1) - E(0) + M*E(0) - 1 == 0
+            def at(v):
+                class Sub(ast.NodeTransformer):
+                    def visit_Name(self, node):
+                        return v if node.id == P else node
+                return Sub().visit(copy.deepcopy(E))
+            aff = ast.BinOp(ast.BinOp(at(two), ast.Sub(), ast.BinOp(ast.Constant(2), ast.Mult(), at(one))), ast.Add(), at(zero))
+            tot = ast.BinOp(ast.BinOp(ast.BinOp(at(one), ast.Sub(), at(zero)), ast.Add(), ast.BinOp(ast.Name("M", ast.Load()), ast.Mult(), at(zero))), ast.Sub(), ast.Constant(1))
+            za, zt = identically_zero(aff), identically_zero(tot)
+            ctx.touch(REL, f"CorralLearner.{name}")
+            ctx.ob("C16.R9", REL, f"CorralLearner.{name}", st, "the smoothed weights sum to one whenever the weights do", None if (za is None or zt is None) else (za and zt),
+                   detail={"E(p)": unparse(comp.elt), "affine": za, "sums to one": zt}, stmt="p_bars sum to one")
+    ctx.floor("C16.R9", "statements filling self._p_bars from self._ps", n, 1)
+    # gamma itself is 1/T (a mixing weight in [0,1] for T >= 1)
+    init = c.methods["__init__"]
+    g = [x for x in walk_shallow(init) if isinstance(x, ast.Assign) and any(is_self_attr(t, "_gamma") for t in x.targets)]
+    ctx.ob("C16.R9", REL, "CorralLearner.__init__", g[0] if g else init, "the mixing weight gamma is 1/T", len(g) == 1 and unparse(g[0].value) in ("1 / T", "1 / self._T"), stmt="gamma")
 
 
 def r8_sampler(ctx):
@@ -307,6 +365,7 @@ def _reg_dict(tree):
 
 
 CONTROLS = [
+    ("uniform mass added per learner without dividing by M", "coba/learners/corral.py", M.replace_expr("CorralLearner.learn", "(1 - self._gamma) * p + self._gamma * 1 / len(self._base_lrns)", "(1 - self._gamma) * p + self._gamma"), "C16.R9"),
     ("sampler bisects to the left", "coba/random.py", M.replace_expr("CobaRandom.choice", "next(compress(seq, map((next(self._randu) * tot).__lt__, accumulate(weights))))",
                                                                     "seq[bisect_left(list(accumulate(weights)), next(self._randu) * tot)]"), "C16.R8"),
     ("make_hashable tests builtin types", "coba/learners/bandit.py", M.chain(M.replace_expr("make_hashable", "isinstance(item, Dense)", "isinstance(item, (list, tuple))"),
